@@ -79,6 +79,13 @@ func (wb *writeBuffer) writeBytes(b []byte) {
 	wb.Write(b)
 }
 
+// writeNonNullBytes writes a BYTES field that the protocol does not allow to be
+// null: a nil slice is written as an empty one.
+func (wb *writeBuffer) writeNonNullBytes(b []byte) {
+	wb.writeInt32(int32(len(b)))
+	wb.Write(b)
+}
+
 func (wb *writeBuffer) writeVarBytes(b []byte) {
 	if b != nil {
 		wb.writeVarInt(int64(len(b)))
